@@ -135,6 +135,28 @@ async def scenario_order(kind):
     return None
 
 
+def scenario_no_leak():
+    """what a frame decodes to does not depend on frames decoded before: a truncated frame whose first fields were parsed, then a valid frame
+    of the same class WITHOUT its optional / conditional fields"""
+    full = M.PeerUserInfoReply.Request(description='d', has_picture=True, picture=b'SECRET PICTURE', upload_slots=1, queue_size=2, has_slots_free=True).serialize()
+    plain = M.PeerUserInfoReply.Request(description='other', has_picture=False).serialize()
+    for cut in range(9, len(full)):
+        bad = full[:cut]
+        bad = struct.pack('<I', len(bad) - 4) + bad[4:]
+        try:
+            M.PeerUserInfoReply.Request.deserialize(0, bad)
+        except Exception:       # noqa
+            pass
+        got = M.PeerUserInfoReply.Request.deserialize(0, plain)
+        if got.picture is not None or got.description != 'other':
+            return f'after a truncated PeerUserInfoReply (cut at byte {cut}) a valid reply without picture decodes with picture={got.picture!r}'
+    a = M.Login.Response.deserialize(0, M.Login.Response(success=True, greeting='hello', ip='1.2.3.4', md5hash='x' * 32, privileged=True).serialize())
+    b = M.Login.Response.deserialize(0, M.Login.Response(success=False, reason='INVALIDPASS').serialize())
+    if b.greeting is not None or b.ip is not None:
+        return f'a failed Login.Response decoded after a successful one carries greeting={b.greeting!r} ip={b.ip!r}'
+    return None
+
+
 def scenario_decode():
     from aioslsk.network.connection import PeerConnection, ServerConnection, PeerConnectionState
     for obf in (False, True):
@@ -196,6 +218,9 @@ def scenario_compressed():
 
 
 def main():
+    why = scenario_no_leak()
+    if why:
+        verdict(True, why, scenario='values of an earlier frame leak into a later one')
     why = scenario_compressed()
     if why:
         verdict(True, why, scenario='broken compressed bodies')
